@@ -42,6 +42,20 @@ func (m *OrderedMap[K, V]) binarySearch(key K) (int, bool) {
 			high = mid
 		}
 	}
+	// less may order keys that are not equal as equivalent (neither is less than the other),
+	// e.g. alias parameters of distinct types with the same name
+	// such keys are neighbours, so look through the run of equivalent keys around low
+	n := len(m.data) / 2
+	for i := low; i < n && !m.less(key, m.data[i*2].(K)); i++ {
+		if m.eq(m.data[i*2].(K), key) {
+			return i * 2, true
+		}
+	}
+	for i := low - 1; i >= 0 && !m.less(m.data[i*2].(K), key); i-- {
+		if m.eq(m.data[i*2].(K), key) {
+			return i * 2, true
+		}
+	}
 	return low, false
 }
 
